@@ -919,6 +919,12 @@ func (s *Stage) finalizeHandler() {
 			s.logDebug("Already finalized or not ready:", f.name)
 			continue
 		}
+		if cached := s.fromCache(f.path); cached != nil && cached != f && cached.hash != f.hash {
+			// A newer version of this file has been received and validated
+			// in the meantime; it is the one staged now
+			s.logDebug("Superseded by a newer version:", f.name)
+			continue
+		}
 		if s.isFileReady(f) {
 			s.finalize(f)
 		}
@@ -1196,8 +1202,10 @@ func (s *Stage) toWait(prevPath string, next *finalFile, howLong time.Duration) 
 	}
 	files, ok := s.wait[prevPath]
 	if ok {
-		for _, waiting := range files {
+		for i, waiting := range files {
 			if waiting.path == next.path {
+				// Keep the latest version of the file
+				files[i] = next
 				return
 			}
 		}
